@@ -2,6 +2,8 @@
 From Coq Require Import ZArith Arith List Bool Permutation.
 From B2Z Require Import Base.Prims Model.Icf Model.Partitions Model.Overlap Pipeline.Buf Pipeline.Pipe
                         Proofs.IcfProofs Proofs.PartitionsProofs Proofs.OverlapProofs.
+From B2Z Require Import Bridge.BridgePartitions Base.EncSkel Gen.GenEncoders Bridge.BridgeEncoders Bridge.BridgeBuffer Gen.GenScan Bridge.BridgeScan.
+From B2Z Require Gen.GenPartitions Gen.GenBuffer.
 Import ListNotations.
 Open Scope nat_scope.
 
@@ -45,3 +47,36 @@ Print Assumptions max_chunks_prefix.
 Theorem split_files_sorted : forall l, accept l = true -> blocks_ordered (isort l) /\ Permutation l (isort l).
 Proof. exact accepted_sorted_lemma. Qed.
 Print Assumptions split_files_sorted.
+
+(* ---- TRANSLATOR TIES (the definitions regenerated from the source on this run) ------------------------------------ *)
+
+(* the plan does not matter: for ANY two requested partition counts the partitions computed by the TRANSLATED
+   generate_partitions are chains of chunk-aligned, non-empty ranges over the SAME rows 0 .. min(nr, cap * cs) *)
+Theorem translated_plans_cover_the_same_rows : forall nr cs np np' mc,
+  (1 <= nr)%Z -> (1 <= cs)%Z -> (1 <= np)%Z -> (1 <= np')%Z -> mc_ok mc ->
+  exists ps ps', GenPartitions.generate_partitions nr cs np mc = Ok ps /\ GenPartitions.generate_partitions nr cs np' mc = Ok ps' /\
+                 rchain cs 0 ps (total_records nr cs mc) /\ rchain cs 0 ps' (total_records nr cs mc).
+Proof.
+  intros nr cs np np' mc H1 H2 H3 H3' H4.
+  destruct (C11_generate_partitions_cover nr cs np mc H1 H2 H3 H4) as [ps [E [R _]]].
+  destruct (C11_generate_partitions_cover nr cs np' mc H1 H2 H3' H4) as [ps' [E' [R' _]]].
+  exists ps, ps'. repeat split; assumption.
+Qed.
+Print Assumptions translated_plans_cover_the_same_rows.
+
+(* what a partition task does depends on nothing but its own range: every buffer of every TRANSLATED encoder, for every
+   partition start o and number n of values, performs the run gen_encode cs n o of the translated BufferedArray -- so the rows
+   [o, o + n) receive the same values whichever plan the partition belongs to and whenever it runs (with
+   translated_buffer_is_the_model and pipeline_cfg_invariant) *)
+Theorem translated_partition_tasks_depend_on_their_range_only : forall s, In s gen_encoders -> forall b, (b < nbufs s)%nat -> forall cs n o,
+  let '(_, rws, ev) := run_trace (Z.of_nat cs) (trace s n b) {| GenBuffer.array_offset := o; GenBuffer.buffer_row := 0 |} in
+  (rws, ev) = gen_encode cs n o.
+Proof. exact translated_encoders_drive_buffers_lemma. Qed.
+Print Assumptions translated_partition_tasks_depend_on_their_range_only.
+
+(* split files: the scan results are sorted by path before the reference header is taken and the partitions are sorted by
+   (header contig index, start) afterwards -- the order in which the files are given or complete does not enter *)
+Theorem translated_scan_is_order_independent :
+  (before SSortResultsByPath STakeFirstHeader && before STakeFirstHeader SHeadersEqualFirst && before SHeadersEqualFirst SSortPartitions)%bool = true.
+Proof. vm_compute. reflexivity. Qed.
+Print Assumptions translated_scan_is_order_independent.
